@@ -22,6 +22,12 @@ Report(e, s1) ==
                          arg |-> s1.notes[i].arg]))
     /\ e.k = "endrun" =>    \* how many distinct (page, href) type-reference hyperlinks the link clause judged in this run
           PrintT(ToJson([tag |-> "LINKS", pg |-> 0, run |-> e.run, judged |-> Cardinality({<<lk.from, lk.href>> : lk \in s1.links})]))
+    /\ \A t \in s1.trej :
+          PrintT(ToJson([tag |-> "REJECT", pg |-> 0, run |-> e.run, n |-> 0, clause |-> "html.link", detail |-> "type-without-resolving-link",
+                         type |-> t, k |-> "endrun"]))
+    /\ \A r \in s1.srej :
+          PrintT(ToJson([tag |-> "REJECT", pg |-> 0, run |-> e.run, n |-> 0, clause |-> "html.link", detail |-> "anchor-shared-by-types",
+                         to |-> r.to, frag |-> r.frag, types |-> r.types, k |-> "endrun"]))
     /\ \A r \in s1.lrej :
           PrintT(ToJson([tag |-> "REJECT", pg |-> r.link.pg, n |-> 0, clause |-> "html.link", detail |-> r.why,
                          href |-> r.link.href, refs |-> r.link.refs, to |-> r.to, inspan |-> r.link.inspan, k |-> "endrun"]))
